@@ -20,7 +20,10 @@ CFG = {
             "cells|ss cases incl. junk parameter texts, the strings of a third of the rt cases and of all rtl cases), rtl / encbl (cells with hyperlinks: "
             "4 URLs incl. one with ; and non-ASCII, parameters a function of the URL). Round 3: decbl (NewStyledString with hyperlinks on exact strings: all rtl strings, "
             "default styles with and without a link, 14 hand-made strings around the link state), genLong (strings of 4-8 kB, thorough 16 kB: every rune boundary of four "
-            "multi-rune graphemes on and next to the 4096-byte buffer boundaries of the parser's reader: rt cells|ss, decb cells|ss). distinct = distinct op line",
+            "multi-rune graphemes on and next to the 4096-byte buffer boundaries of the parser's reader: rt cells|ss, decb cells|ss). Round 4: dec-truncated-pos (every cut of the legacy and colon forms of "
+            "38/48/58 after 0-5 leading and before 0-2 trailing parameters, all three consumers: 3 x 1188), agr (the three real consumers side by side on arbitrary well-printed parameter lists: "
+            "vocabulary alone / prefixed / suffixed / embedded, 16x16 pairs, 3 000 random lists of 1-7 parameters with 1-7 sub-parameters; thorough 120 000), rdf (850 real rendered frames, every "
+            "capability setting and the legacy quirk, read back by the real ParseStyledString / NewStyledString), 47 documentation cases of the nine consumer-disagreement classes (corpus). distinct = distinct op line",
     "trusted_base": ["A-concat as the explicit hypothesis TextOK of the byte-level theorems: every grapheme is non-empty, starts with a rune >= 0x20 and is one "
                      "grapheme cluster (uniseg oracle cl) of the text that follows it; checked per case by the decb stream (real functions on the real "
                      "strings, cluster table from the real uniseg)",
@@ -31,11 +34,13 @@ CFG = {
                      "Spec.sgr (Spec/Sgr.lean, written from ECMA-48 / xterm ctlseqs) as the meaning of SGR; "
                      "shown / shownCaps (Model/Sgr.lean) as the terminal-level meaning of a vaxis Style",
                      "extractor cmd/C18 for labels / arities / producer call sequences (fails closed); the SGR templates it parses are no longer trusted: "
-                     "every template is proved to be what its regenerated format string prints (Lemmas.SgrBytes.b_*)"],
+                     "every template is proved to be what its regenerated format string prints (Lemmas.SgrBytes.b_*)",
+                     "round 4: C02's model of csiDispatch (decodeLoop; tied to the source by C02's csiDispatch_body) for 'the parser never delivers an empty parameter'; "
+                     "strings.Split / Cut as modelled by splitB / cutM (decb correspondence on junk bodies)"],
     "assumptions": ["styles are well formed: colours built by IndexColor/RGBColor or default, attribute mask over the seven "
                     "defined bits, underline style 0..5; hyperlinks: cells carry a Link beside the Style (Model/SgrLinks); they come back through Encode / NewStyledString "
-                    "under LinksRestorable (no ; in parameters, none for the empty URL, equal parameters for neighbouring cells with equal URLs — false without it: "
-                    "roundtrip_ss_links_unrestricted_fails)",
+                    "exactly under LinksRestorable (no ; in parameters, none for the empty URL, equal parameters for neighbouring cells with equal URLs: "
+                    "roundtrip_ss_links_iff, round 4)",
                     "SGR parameters are < 2^63 (the ansi parser's int accumulation does not overflow)"],
     "level_text": "SGR codecs and producer/consumer agreement, on tokens and on BYTES: for all attribute-mask pairs (per-bit proof), all colours and "
                   "underline styles, all cell sequences: the sequences EncodeCells / StyledString.Encode / render write mean (under Spec.sgr) exactly "
@@ -53,14 +58,28 @@ CFG = {
                   "variants, every capability setting via capStyle) and over bytes (delta_*_bytes); encoded_shows_*, render_frame_shows and the emulator round trip over bytes (Props/C18Terminal); "
                   "hyperlinks at full strength: NewStyledString(Encode cs) = cs and NewStyledString(EncodeCells cs) = cs including URL and parameters (roundtrip_ss_links_full_bytes, roundtrip_cells_links_via_ss_full_bytes, hypothesis LinksRestorable = what the rtl oracle evaluates; "
                   "negation without it proved from a witness); ParseStyledString with its reading side inside the model (reader_single_read, parseStyledIO_eq, "
-                  "roundtrip_cells_io: C02's ParserIO on the whole string in one read = the oracle model; reader_recognised: that is the reader the source builds).",
-    "level_note": "Proved for all inputs on the model (106 theorems, axioms propext/Classical.choice/Quot.sound only). Fixed in /repo: F48, F35 (round 1), "
+                  "roundtrip_cells_io: C02's ParserIO on the whole string in one read = the oracle model; reader_recognised: that is the reader the source builds). "
+                  "Round 4: never-panic WITHOUT hypothesis at the byte level (sgr_total_parser_delivers: csiDispatch never builds an empty parameter, any table / state / input; sgr_total_parseStyled_bytes, "
+                  "sgr_total_pen_bytes, sgr_total_newStyledString_bytes for every string; sgr_total_parseStyled_io for every byte string through the ParserIO reader incl. invalid UTF-8; sgr_total_esc_m_bytes); "
+                  "agreement on EVERY parameter list: parseSGR = emulator sgr for all lists and styles (consumers_int_agree_all), NewStyledString agrees on the decidable class agreeClass which contains the "
+                  "producers' whole range (consumers_agree_on_class, producers_range_in_class, string_parsers_agree_on_class over strings) and provably not everywhere (nine disagreement classes with "
+                  "decide-checked witnesses, all outside the producers' range: disagreement_witnesses, disagreement_noncanonical_bytes, consumers_agree_all_full_fails); the legacy-SGR quirk as named statements "
+                  "(quirk_is_replace_colon, quirk_strings, quirk_prints_legacy_forms: legacy = true is what quirks.go does; legacy_quirk_no_effect_ssEncode from the extracted mutability facts; nine "
+                  "legacy_quirk_<producer>_<consumer> at token and byte level; legacy_quirk_roundtrip_*; render_frame_read_bytes / legacy_quirk_frame: a rendered frame's SGR+text bytes read back by all three "
+                  "consumers under every capability setting); hyperlinks: LinksRestorable is EXACT (roundtrip_ss_links_iff, roundtrip_cells_links_via_ss_iff, links_restorable_iff_clauses).",
+    "level_note": "Proved for all inputs on the model (154 theorems, axioms propext/Classical.choice/Quot.sound only). Fixed in /repo: F48, F35 (round 1), "
                   "F118, F119, F121 (round 2), F122 (round 3: ParseStyledString split a grapheme that straddled the parser's 4096-byte buffer; it now buffers the whole "
                   "string; parse_chunked_cuts_cluster shows the old reader failing on the model). Validated by correspondence only: that the byte-level model is the code "
                   "(encb / encbl: exact producer strings; decb: both string parsers on exact strings incl. junk parameter texts, with the uniseg cluster table, and the "
                   "ParserIO-based reader model beside the oracle model on every decb cells string; decbl: NewStyledString with hyperlink fields), grapheme segmentation "
-                  "(hypotheses TextOK / Agrees), what each handled label does (the set of labels and arities is extracted). Outside the theorems: ParseStyledString on "
-                  "invalid UTF-8 (C02's streams), hyperlinks through ParseStyledString (it drops them: not in the property text), cell widths (not in the "
+                  "(hypotheses TextOK / Agrees), what each handled label does (the set of labels and arities is extracted); round 4: that the three real consumers agree on agreeClass and never "
+                  "panic (agr: real ParseStyledString / NewStyledString / emulator side by side), that the nine disagreement classes are stable on the real code (corpus R4, model = implementation), that a real "
+                  "rendered frame is read back as capCells (rdf). Not findings: the disagreements lie outside the producers' range. agreeClass is sufficient, not exact (later parameters can mask a difference). "
+                  "Outside the theorems: what ParseStyledString returns for "
+                  "invalid UTF-8 (C02's streams; that it does not panic is sgr_total_parseStyled_io), negative parameter values from int overflow (read as 0 by the model), hyperlinks through ParseStyledString (it drops them: not in the property text), cell widths (not in the "
                   "property text; re-measured by the parsers), cursor movement / mode sequences of rendered frames (the SGR and text part is inside: renderFromB, render_frame_shows_bytes, op encb render).",
+    "technique": "Lean 4 proofs over executable models of the three producers and three consumers (token level and byte level, composed with C02's parser model and ParserIO reader); "
+                 "decidable classes / ranges with decide-checked witnesses for false full statements; extractor-regenerated labels, arities, format strings, quirk rewrites and producer call sequences; "
+                 "differential correspondence on the real code (enc/dec/rt/rtq/rtl/encb/decb/decbl/encbl/agr/rdf) with Spec.sgr as the independent oracle",
     "timeout": 1800,
 }
